@@ -33,6 +33,7 @@ func genFunc(w *World, fs *FuncSpec) (*Gen, error) {
 	}
 	g := newGen(w, fn, fs, key, fs.Mode == "bv")
 	g.abstractMod = fs.AbstractMod
+	g.indexFn = fs.IndexFn && fs.Mode != "bv"
 	for _, sname := range fs.Stable {
 		g.stableSuffix = append(g.stableSuffix, strings.ReplaceAll(sname, ".", "_"))
 	}
